@@ -179,7 +179,7 @@ partial def stmtDump : Stmt → String
   | .ifS c t e => s!"(if {exprDump c} {stmtDump t} {match e with | some s => stmtDump s | none => "-"})"
   | .whileS c b => s!"(while {exprDump c} {stmtDump b})"
   | .forS i c inc b =>
-    s!"(for {match i with | some s => stmtDump s | none => "-"} {exprDump c} {optExprDump inc} {stmtDump b})"
+    s!"(for {match i with | some s => stmtDump s | none => "-"} {exprDump (forCond c)} {optExprDump inc} {stmtDump b})"
   | .breakS l => s!"(break {l})"
   | .continueS l => s!"(continue {l})"
   | .returnS l v => s!"(return {l} {optExprDump v})"
